@@ -527,6 +527,16 @@ pub fn run(a: &Args) {
             }
         }
     }
+    // datagrams of exactly 1020 bytes from a lock-step peer: six of them fill the connection's 6120-byte receive buffer to the last byte
+    for compressed in [true, false] { for imp in ["B", "A"] {
+        let tiny = |len: usize, reqi: u8| -> Vec<u8> { let mut f = vec![if compressed { (len / 4) as u8 } else { len as u8 }, 3, reqi, 3]; f.resize(len, 0); f };
+        let mut frames: Vec<Vec<u8>> = vec![]; let mut groups: Vec<usize> = vec![];
+        for d in 0..14u8 { if compressed { frames.push(tiny(1020, d + 1)); groups.push(1); } else { for k in 0..4 { frames.push(tiny(252, 1 + d * 5 + k)); } frames.push(tiny(12, 5 + d * 5)); groups.push(5); } }
+        let case = Case { imp: if imp == "B" { "B" } else { "A" }, compressed, verify: false, frames, groups, lockstep: true, cancel_us: None };
+        let id = format!("exactfill {imp} {}", mode_tag(compressed));
+        let _ = run_session_case(&id, &case, &rt, &mut st, None, &mut rng);
+        st.bump("lock-step sessions of 1020-byte datagrams");
+    } }
     for (imp, c, seed, n, style, big) in cases {
         let id = format!("session {imp} {} {seed} {n} {style} {}", mode_tag(c), big as u8);
         let case = session_case(&imp, c, seed, n, style, big);
